@@ -62,6 +62,14 @@ type c09Cfg struct {
 	minWin, maxWin int64
 	threshold      int64
 	ahead          int // default limiter: how many requests are acquired ahead of the one being completed
+	window         int // window size (0 = 10, the smallest the constructors accept)
+}
+
+func (c c09Cfg) win() int {
+	if c.window == 0 {
+		return 10
+	}
+	return c.window
 }
 
 var c09Dev = []string{"default(success,2ms)", "drop", "ignore", "below-threshold", "exactly-threshold", "10x-longer", "overlap(in-flight 2)", "gap(one period)", "drop+gap"}
@@ -70,7 +78,7 @@ func c09Default(cfg c09Cfg, hist []int) (got, want []delivered, trace string) {
 	vrt.ManualClock = 1_000_000_000
 	n := len(hist)
 	rec := &ScriptLimit{Traj: []int{64}}
-	l, err := limiter.NewDefaultLimiter(rec, cfg.minWin, cfg.maxWin, cfg.threshold, 10, strategy.NewSimpleStrategy(64), limit.NoopLimitLogger{}, core.EmptyMetricRegistryInstance)
+	l, err := limiter.NewDefaultLimiter(rec, cfg.minWin, cfg.maxWin, cfg.threshold, cfg.win(), strategy.NewSimpleStrategy(64), limit.NoopLimitLogger{}, core.EmptyMetricRegistryInstance)
 	if err != nil {
 		panic(err)
 	}
@@ -169,7 +177,7 @@ func c09Default(cfg c09Cfg, hist []int) (got, want []delivered, trace string) {
 			}
 			added = true
 		}
-		if added && end > next && refMin < math.MaxInt64 && refN > 10 {
+		if added && end > next && refMin < math.MaxInt64 && refN > cfg.win() {
 			want = append(want, delivered{i, SampleRec{0, refMin, refMax, refDrop}})
 			w := 2 * refMin
 			if w < cfg.minWin {
@@ -192,7 +200,7 @@ var c09WDev = []string{"default(success,20ms,in-flight 11)", "drop", "below-thre
 
 func c09Windowed(cfg c09Cfg, hist []int) (got, want []delivered, trace string) {
 	rec := &ScriptLimit{Traj: []int{5}}
-	w, err := limit.NewWindowedLimit("w", cfg.minWin, cfg.maxWin, 10, cfg.threshold, rec, nil)
+	w, err := limit.NewWindowedLimit("w", cfg.minWin, cfg.maxWin, int32(cfg.win()), cfg.threshold, rec, nil)
 	if err != nil {
 		panic(err)
 	}
@@ -242,7 +250,7 @@ func c09Windowed(cfg c09Cfg, hist []int) (got, want []delivered, trace string) {
 					refMin = rtt
 				}
 			}
-			if end > next && inflight > 10 {
+			if end > next && inflight > cfg.win() {
 				avg := int64(0)
 				if refN > 0 {
 					avg = refSum / int64(refN)
@@ -306,7 +314,7 @@ func c09Compare(kind string, devNames []string, hist []int, got, want []delivere
 }
 
 func c09Run(c *Ctx, name string, cfg c09Cfg, devNames []string, db int, run func(c09Cfg, []int) ([]delivered, []delivered, string)) {
-	params := fmt.Sprintf("minWindow=%dms maxWindow=%dms threshold=%dns windowSize=10 acquired-ahead=%d history=26 deviations<=%d of %v", cfg.minWin/1e6, cfg.maxWin/1e6, cfg.threshold, cfg.ahead, db, devNames[1:])
+	params := fmt.Sprintf("minWindow=%dms maxWindow=%dms threshold=%dns windowSize=%d acquired-ahead=%d history=26 deviations<=%d of %v", cfg.minWin/1e6, cfg.maxWin/1e6, cfg.threshold, cfg.win(), cfg.ahead, db, devNames[1:])
 	if c.replay != nil {
 		if c.replay.Scenario == name && c.replay.Params == params {
 			got, want, _ := run(cfg, c.replay.Choices)
@@ -366,9 +374,9 @@ func c09Run(c *Ctx, name string, cfg c09Cfg, devNames []string, db int, run func
 
 func runC09(c *Ctx) {
 	db := c.Pick(2, 3)
-	c09Run(c, "C09/default-limiter", c09Cfg{10e6, 20e6, 1, 0}, c09Dev, 3, c09Default)
-	c09Run(c, "C09/windowed-limit", c09Cfg{100e6, 200e6, 1, 0}, c09WDev, 3, c09Windowed)
-	for _, cfg := range []c09Cfg{{10e6, 10e6, 1, 0}, {10e6, 40e6, 1, 0}, {10e6, 10e6, 1e6, 0}, {10e6, 40e6, 1e6, 0}} {
+	c09Run(c, "C09/default-limiter", c09Cfg{minWin: 10e6, maxWin: 20e6, threshold: 1, ahead: 0}, c09Dev, 3, c09Default)
+	c09Run(c, "C09/windowed-limit", c09Cfg{minWin: 100e6, maxWin: 200e6, threshold: 1, ahead: 0}, c09WDev, 3, c09Windowed)
+	for _, cfg := range []c09Cfg{{minWin: 10e6, maxWin: 10e6, threshold: 1, ahead: 0}, {minWin: 10e6, maxWin: 40e6, threshold: 1, ahead: 0}, {minWin: 10e6, maxWin: 10e6, threshold: 1e6, ahead: 0}, {minWin: 10e6, maxWin: 40e6, threshold: 1e6, ahead: 0}} {
 		c09Run(c, "C09/default-limiter", cfg, c09Dev, db, c09Default)
 		// pipelined and fully batched acquisition: listeners outlive window updates
 		for _, ahead := range []int{5, 12, 25} {
@@ -376,7 +384,12 @@ func runC09(c *Ctx) {
 			c09Run(c, "C09/default-limiter", cfg, c09Dev, db, c09Default)
 		}
 	}
-	for _, cfg := range []c09Cfg{{100e6, 100e6, 1, 0}, {100e6, 400e6, 1, 0}, {100e6, 100e6, 1e6, 0}, {100e6, 400e6, 30e6, 0}} {
+	// a larger window size: 13 qualifying completions per window (default limiter), closing sample's
+	// in-flight must exceed 12 (windowed limit; its default in-flight of 11 never closes, 30 does)
+	c09Run(c, "C09/default-limiter", c09Cfg{minWin: 10e6, maxWin: 10e6, threshold: 1, window: 12}, c09Dev, db, c09Default)
+	c09Run(c, "C09/default-limiter", c09Cfg{minWin: 10e6, maxWin: 10e6, threshold: 1, window: 12, ahead: 25}, c09Dev, db, c09Default)
+	c09Run(c, "C09/windowed-limit", c09Cfg{minWin: 100e6, maxWin: 100e6, threshold: 1, window: 12}, c09WDev, db, c09Windowed)
+	for _, cfg := range []c09Cfg{{minWin: 100e6, maxWin: 100e6, threshold: 1, ahead: 0}, {minWin: 100e6, maxWin: 400e6, threshold: 1, ahead: 0}, {minWin: 100e6, maxWin: 100e6, threshold: 1e6, ahead: 0}, {minWin: 100e6, maxWin: 400e6, threshold: 30e6, ahead: 0}} {
 		c09Run(c, "C09/windowed-limit", cfg, c09WDev, db, c09Windowed)
 	}
 }
